@@ -198,6 +198,13 @@ static void check_objects(hwloc_topology_t t)
     else if (td == HWLOC_TYPE_DEPTH_UNKNOWN) {
       /* first present type typically found inside / containing: defined through hwloc_compare_types */
       int eb = -1, ea = -1;
+      /* defined through hwloc_compare_types, in which Group sits right below Machine.  When a Group level lies deeper than
+       * another normal level (a Group inserted around a few cores or PUs) the type order is not monotonic along the depth
+       * and "the first present type typically inside / containing" has no definite answer: the library's two loops then
+       * give what the repository's own test (tests/hwloc/hwloc_type_depth.c) pins, which is not what a reader of the
+       * documentation would derive.  Not a clause of the property: such topologies are counted and skipped. */
+      int monotonic = 1; { int seen_other = 0; for (int d = 1; d < depth; d++) { if (hwloc_get_depth_type(t, d) == HWLOC_OBJ_GROUP) { if (seen_other) monotonic = 0; } else seen_other = 1; } }
+      if (!monotonic) { mc_count("or_above_below_skipped_deep_group", 1); continue; }
       for (int d = 0; d < depth; d++) { if (hwloc_compare_types(hwloc_get_depth_type(t, d), (hwloc_obj_type_t)ty) > 0) { eb = d; break; } }
       for (int d = depth - 1; d >= 0; d--) { if (hwloc_compare_types(hwloc_get_depth_type(t, d), (hwloc_obj_type_t)ty) < 0) { ea = d; break; } }
       if (eb >= 0 && below != eb) mc_violation("c09.type_or_below", "%s :: or_below(%s) = %d, first deeper present type is at %d", mc_case_text(), hwloc_obj_type_string((hwloc_obj_type_t)ty), below, eb);
@@ -276,8 +283,8 @@ int main(int argc, char **argv)
   mc_init(argc, argv, "C09");
   int nroots = univ_small_count();
   uint64_t idx = 0;
-  struct opscope sc; memset(&sc, 0, sizeof(sc)); sc.classes = OPC_RESTRICT; sc.max_subset_bits = MC.thorough ? 4 : 2; sc.lean = !MC.thorough;
-  mc_note("%d roots x 2 configurations, plus the states reached by one restrict", nroots);
+  struct opscope sc; memset(&sc, 0, sizeof(sc)); sc.classes = OPC_RESTRICT | OPC_GROUP; sc.max_subset_bits = MC.thorough ? 4 : 2; sc.lean = !MC.thorough;
+  mc_note("%d roots x 2 configurations, plus the states reached by one restrict or one Group insertion (asymmetric trees whose parent-child links skip levels)", nroots);
   for (int r = 0; r < nroots; r++) for (int c = 0; c < 2; c++, idx++) {
     if (!mc_mine(idx) || mc_deadline()) continue;
     struct hist h0; memset(&h0, 0, sizeof(h0)); h0.root = r; h0.cfg = c;
